@@ -14,6 +14,7 @@ Inductive cexpr :=
 | XConst (v : json)                (* a literal: true, false, null, a number, a string *)
 | XVar (x : string)                (* the variable x, i.e. the binding of ?x; ReferenceError if unbound *)
 | XSeq (x : string) (v : json)     (* x === v for a scalar literal v *)
+| XOpt (x : string)                (* (typeof x === "undefined" ? "__unbound" : x) *)
 | XObj (fields : list (string * cexpr)).   (* ({"f": e, ...}) *)
 
 Inductive code :=
@@ -34,6 +35,11 @@ Fixpoint eval_cexpr (bs : bindings) (e : cexpr) : outcome json :=
   match e with
   | XConst v => Ok v
   | XVar x => match script_var bs x with Some v => Ok v | None => Err "ReferenceError" end
+  | XOpt x => (* a Go nil handed to otto is `undefined` *)
+      match script_var bs x with
+      | Some JNull | None => Ok (JStr "__unbound")
+      | Some v => Ok v
+      end
   | XSeq x v => match script_var bs x with
                 | Some w => Ok (JBool (is_scalar w && json_eqb w v))
                 | None => Err "ReferenceError"
@@ -69,6 +75,7 @@ Fixpoint dec_cexpr (fuel : nat) (d : json) : cexpr :=
   | S f =>
       let t := jfS "t" d in
       if String.eqb t "var" then XVar (jfS "x" d)
+      else if String.eqb t "opt" then XOpt (jfS "x" d)
       else if String.eqb t "seq" then XSeq (jfS "x" d) (jget_d "v" d)
       else if String.eqb t "obj" then XObj (map (fun kv => (fst kv, dec_cexpr f (snd kv))) (jO (jget_d "f" d)))
       else XConst (jget_d "v" d)
